@@ -17,8 +17,13 @@ def run(ctx):
     gs = ctx.tlc("NtpAcceptMC", "NtpAccept_gen2.cfg", workers=1, timeout=600, simulate="num=%d" % (500 if q else 3000),
                  depth=8, tag="gen2sim")
     two = [c for c in ctx.emitted(gs["out"]) if len(c["seen"]) + len(c["rest"]) >= 2]
+    gp = ctx.tlc("NtpAcceptMC", "NtpAccept_genpair.cfg", workers=1, timeout=600, tag="genpair")
+    pairs = ctx.emitted(gp["out"])
+    if len(pairs) < 50:
+        raise vlib.Inconclusive("pair generator produced only %d cases" % len(pairs))
+    two = pairs + two
     if q:
-        cases = rng.sample(cases, min(len(cases), 600)) + two[:300]
+        cases = rng.sample(cases, min(len(cases), 500)) + two[:len(pairs) + 200]
     else:
         cases += two
         g2 = ctx.tlc("NtpAcceptMC", "NtpAccept_gen2.cfg", workers=1, timeout=1200, tag="gen2")
